@@ -174,7 +174,7 @@ CLAIMED = {
                 'unschedule publication, outcome consistent with the exit '
                 'code / cancel request, nothing left in _tasks, no deadlock, '
                 'no thread death, serialisable messages.'
-                " Scenarios include start-up limits, processes which die late after the kill (bounded waits may time out) and an ownership oracle: the watcher writes a task's outcome only for tasks it took out of the registry itself.",
+                " Scenarios include start-up limits, processes which die late after the kill (bounded waits may time out) and an ownership oracle: the watcher writes a task's outcome only for tasks it took out of the registry itself. Part noop: the real NOOP.work()/_collect() on a virtual clock, every bulk composition (kinds ok/sleep/badarg/launch-fault, 1-2 bulks) x every history of intake, collector-pass and time events up to depth 4 (quick) / 6, same per-task oracle.",
   'note'      : 'Line-level (not byte-code-level) interleavings; advance() and '
                 'publish() are atomic; a killed process dies at once; '
                 'sp.Popen/os.killpg/time are harness fakes; script creation is '
